@@ -22,7 +22,7 @@ GARBAGE = ["add_listener", "__class__", "__init__", "_graph", "model", "send", "
            "_listeners", "add_observer", "_register_callbacks", "_repr_html_", "states_map", "start_value",
            "allow_event_without_transition", "_callbacks", "_engine", "__getstate__", "__eq__", "__hash__",
            "_put_nonblocking", "_add_listener", "_get_initial_state", "__init_subclass__", "__reduce__",
-           "qwerty", "", " ", "go back", "Ev"]
+           "qwerty", "", " ", "go back", "Ev", "__initial__", "__initial__"]
 
 
 def baseline(sc):
